@@ -140,7 +140,34 @@ let run4 s o =
       print_endline "PANIC";
       Dead
 
-let () =
+(* `driver known <K>`: evaluate the extracted known-finding predicate K (Coq: Client/Run4.v)
+   on each history of the input (a history = NEW line + ops); prints K=1 / K=0 per history *)
+let known name =
+  let mx = ref (n_of_int 1) and manual = ref false and ops = ref [] and started = ref false in
+  let emit () =
+    if !started then begin
+      let h = List.rev !ops in
+      let k =
+        match name with
+        | "K18" -> v4_k18 !mx !manual h
+        | "K19" -> v4_k19 h
+        | "CONTRACT" -> v4_contract (v4_init !mx !manual) h
+        | _ -> failwith ("unknown predicate " ^ name)
+      in
+      print_endline (if k then "K=1" else "K=0")
+    end
+  in
+  iter_lines (fun line ->
+      match split_ws line with
+      | [] -> ()
+      | [ "NEW"; "4"; m; ma ] -> emit (); started := true; ops := []; mx := n m; manual := (ma = "1")
+      | "OUT" :: r -> ops := Out (parse_request r) :: !ops
+      | "IN" :: r -> ops := Inc (parse_packet r) :: !ops
+      | [ "CLEAN" ] -> ops := Clean :: !ops
+      | _ -> failwith ("bad op: " ^ line));
+  emit ()
+
+let main () =
   let st = ref Dead in
   iter_lines (fun line ->
       match split_ws line with
@@ -158,3 +185,5 @@ let () =
               | "IN" :: r -> st := run4 s (Inc (parse_packet r))
               | [ "CLEAN" ] -> st := run4 s Clean
               | _ -> failwith ("bad op: " ^ line))))
+
+let () = if Array.length Sys.argv > 2 && Sys.argv.(1) = "known" then known Sys.argv.(2) else main ()
